@@ -39,6 +39,102 @@ CHECKS = {
         design='7/C03', technique='Coq proof (leaf/cached invariants over all passes) + tree correspondence + per-node oracle'),
 }
 
+CHECKS.update({
+    'C04': dict(
+        text='Coq proofs for EVERY text: C04_agree (split() = the stripped text of exactly the statements of parse()), C04_partition '
+             '(pieces non-empty, found in order at non-overlapping positions, everything before/between/after them is whitespace: '
+             'uses a sound must-contain-a-non-space analysis of every regenerated lexer rule and the equality of the regex \\s class '
+             'with str.isspace), C04_resplit_tokens (token-level idempotence) and C04_resplit_shape (re-splitting only cuts further, '
+             'loses nothing). Text-level idempotence is REFUTED on the unchanged tree (C04_idem_refuted, C04_idem_refuted_leftctx: known '
+             'findings F11, F17) and proved under the exact re-lexing-stability guard (C04_idem_partial), whose hypothesis is evaluated '
+             'on the implementation for every piece. Model tied to the code by the split correspondence (both strip_semicolon values).',
+        note='Partial for the idempotence clause (two listed findings). Trusted: kernel, translators, extraction, harness; hand model of '
+             'split()/StripTrailingSemicolonFilter tested against the code.',
+        design='7/C04', technique='Coq proof (partition + rule analysis) + refutation witnesses + split correspondence'),
+    'C05': dict(
+        text='Coq proofs over the REGENERATED _change_splitlevel/terminator/EOS tables: C05_k_statements (k plain statements joined by '
+             '`;` and whitespace/one-line comments are returned as exactly those k statements, any k, any token contents: induction over '
+             'the token stream with the splitter state generalised), C05_paren_no_split_partial (a `;` nested in parentheses never ends '
+             'a statement when no END precedes it; the full claim is refuted: C05_paren_refuted, finding F1), C05_opaque_values '
+             '(replacing the values of literal/quoted-name/comment tokens leaves number and extent of the statements unchanged) and the '
+             'region theorems of Lexer/Regions.v (each opaque region is exactly one such token). A trailing comment-only statement is '
+             'finding F18. Splitter loop tied to the code by the splitstream correspondence; direct oracle on grammar scripts with '
+             'known statement structure and on region-body replacements.',
+        note='Partial where refuted (F1, F18). The rendering grammar -> token classes step rests on the region theorems and the lex '
+             'correspondence. Trusted base as C02.',
+        design='7/C05', technique='Coq proof (induction over token stream, generated decision table) + region lemmas + correspondence'),
+    'C08': dict(
+        text='Exact Gallina models of KeywordCaseFilter, IdentifierCaseFilter, TruncateStringFilter (incl. full str.lower/capitalize with '
+             'the final-sigma rule, tables regenerated from the interpreter) and of StripCommentsFilter (incl. its use of stale cached '
+             'values and the regex search), each validated by differential runs; theorems for ALL token lists/trees: exact '
+             'characterisations (kwcase_spec, idcase_spec, truncate_spec), types/order/untouched tokens preserved, idempotence '
+             '(refuted for capitalize on U+0149 and for text-level truncation), C08_case_relex (ASCII re-casing never fuses/splits tokens: '
+             'relational invariance of the regex semantics + closure of every regenerated atom), strip_comments total, residue/'
+             'no-comment-left/hints-preserved/separation/idempotence theorems under decidable hypotheses whose negations are exactly the '
+             'listed findings (adjacent comments, hint after comment, comment as first child).',
+        note='Partial: several clauses are false of the unchanged tree (10 listed findings with mechanism-specific class predicates; the '
+             'predicates for strip_comments are the hypotheses of the partial theorems evaluated by the extracted model).',
+        design='7/C08', technique='Coq proof over exact filter models + refutations + stage correspondence + direct oracle'),
+    'C09': dict(
+        text='Coq proofs for EVERY sibling list/tree: C09_driver (the index-juggling _group_matching loop over a snapshot with '
+             'tidx_offset/opens equals the textbook stack matcher), C09_recursive (inside, never across), C09_shape/C09_residual '
+             '(new groups are opener..closer, maximality), C09_passes (passes 2-7 are the six matchers in order) and the PIPELINE theorems '
+             'C09_pipeline / C09_first_last_leaf (Props/C09p.v): the 18 later passes never create, destroy, split or merge a '
+             'bracket/block node (spans preserved exactly) and in the final tree every such node starts with its opening token and, '
+             'ignoring trailing whitespace/comments, ends with its closing token. Model tied to the code by tree correspondence after '
+             'each of passes 0-7 (and all 25 in C02); a reference stack matcher run on the implementation trees as direct oracle.',
+        note='Trusted: hand model of _group_matching/group_tokens and of the later passes (tested against the code after every pass).',
+        design='7/C09', technique='Coq proof (simulation invariant; span preservation through all passes) + correspondence'),
+    'C11': dict(
+        text='Coq proofs: C11_lex_case (ASCII re-casing: same token boundaries and types, all texts), C11_lex_ws_run (a non-empty '
+             'whitespace run at a token boundary lexes to one token per unit and the rest of the text is lexed as after a single blank), '
+             'C11_multiword_fin (39 multi-word keywords x inner runs x case: finite family, bound in the statement), C11_split / '
+             'C11_case_split (statement sequence of significant tokens invariant under the skeleton relation, with the exact guard), '
+             'C11_group_matching (bracket matching commutes with taking shapes). The full property is REFUTED on the unchanged tree in nine '
+             'ways (nine listed findings, seven with vm_compute witnesses through the model). The generic _group driver, the ad-hoc '
+             'passes and get_type are covered by the metamorphic oracle (two renderings of one script) and the parse correspondence only.',
+        note='Partial: lexer, splitter and bracket-matcher layers proved; the remaining grouping passes by exploration. Nine known findings.',
+        design='7/C11', technique='Coq proof per layer (relational invariance, skeleton simulation) + refutations + metamorphic oracle'),
+    'C16': dict(
+        text='Coq proofs, generic in the rules and instantiated on the REGENERATED SQL_REGEX on every run: C16_criterion (every unbounded '
+             'repeat has a body that is a prefix-free or suffix-free code of fixed-length character-class words; disjointness decided on the '
+             'enumerated code-point sets), C16_no_double_match (no repeat matches the same substring in two ways, every text), '
+             'C16_paths_poly / C16_work_poly / C16_lexer (backtracking paths and work of the list-of-results semantics polynomial in the '
+             'text length). The criterion rejects the historically vulnerable shapes (refutation examples). Concrete half: pump strings '
+             'derived from every repeat of the current rules must tokenize within a calibrated budget.',
+        note='The bound is about the model (ordered-list backtracking semantics, tied to CPython re by rmatch correspondence); that sre '
+             'does no more search than that is assumed. Timing half is a test by nature.',
+        design='7/C16', technique='Coq proof (unambiguity of prefix/suffix codes; polynomial path/work bounds) + pump timing'),
+    'C17': dict(
+        text='Coq proof over the REGENERATED split-level table: C17_create_unit (CREATE[ OR REPLACE] <header> BEGIN <block> END ; is one '
+             'statement for every block of the bracket language: nested BEGIN..END, IF/WHILE/FOR..END IF/END WHILE/END FOR, CASE..END, '
+             'LOOP..END LOOP, inner DECLARE, parentheses, semicolons, any depth: induction over the grammar derivation with the splitter '
+             'state generalised), C17_script/C17_partial (surrounding units returned separately and unchanged). The full grammar is REFUTED '
+             'in four ways (FOR..LOOP..END LOOP, CASE..END CASE, DECLARE before BEGIN, block keyword before `(`/`.`): vm_compute witnesses, '
+             'listed findings F2, F3, F12, F19.',
+        note='Partial (four listed findings). Trusted base as C05.',
+        design='7/C17', technique='Coq proof (induction over block grammar, generated table lemmas) + refutations + correspondence'),
+    'C19': dict(
+        text='Coq proofs: the decode ladder of Lexer.get_tokens as a total model (strict UTF-8 codec with round-trip AND injectivity proofs, '
+             'Latin-1, a byte-exact unicode-escape decoder); C19_str/_stream/_utf8_noenc/_utf8_enc/_bytes_enc and the *_forms corollaries '
+             '(parse, parsestream, split, format give the same result for str, stream, UTF-8 bytes, bytes+matching codec), '
+             'C19_parse_is_stream and C19_single_decode over facts extracted from the source AST on every run; the Latin-1 fallback is REFUTED '
+             '(the code uses unicode-escape: C19_latin1_refuted, exact boundary C19_latin1_exact). The CLI is covered by a direct oracle '
+             'over every flag x channel x encoding (three listed CLI findings).',
+        note='Partial: CLI by exploration only; codecs other than UTF-8/Latin-1 enter as a round-trip hypothesis. Four listed findings.',
+        design='7/C19', technique='Coq proof (codec round-trip, decode ladder, AST facts) + decode correspondence + CLI oracle'),
+    'C20': dict(
+        text='Coq proofs for ANY number of threads and ANY interleaving of the statements of Lexer.get_default_instance (instruction list '
+             'translated from the source on every run): C20_sched_init_safe, _same_instance, _single_init, _never_replaced, no-deadlock under '
+             'fair schedules (invariant by induction on the schedule; refuted for the unlocked / early-release variants); history machine '
+             'over the regenerated inventory of persistent state: C20_calls_pure, C20_history, C20_reinit. Real threads are driven '
+             'statement by statement (sys.settrace) through enumerated schedules and compared with the extracted model; random call '
+             'histories are compared with fresh interpreters; free-running thread stress. One listed finding (an exception during the '
+             'first initialisation leaves a half-initialised lexer: C20_xhistory_refuted).',
+        note='Trusted: statement-level atomicity under the GIL; the inventory classification rules. One known finding.',
+        design='7/C20', technique='Coq proof (schedule invariant, history state machine) + forced-schedule correspondence on real threads'),
+})
+
 NOT_YET = {}
 
 
